@@ -69,6 +69,24 @@ class C10Hooks(CutHooks):
         self.n_pred = 0
         self.n_split = 0
 
+    def sequence_items(self, v):
+        """A node of the path is the record [in-handle, point, out-handle]: slices of it with
+        literal bounds have known elements."""
+        node = v
+        lo = hi = None
+        if v.label == 'slice' and len(v.args) == 4 and v.args[3] == NONE and all(
+                x == NONE or (isinstance(x, Sym) and x.is_const() and
+                              x.const_value().denominator == 1) for x in v.args[1:3]):
+            node = v.args[0]
+            lo = None if v.args[1] == NONE else int(v.args[1].const_value())
+            hi = None if v.args[2] == NONE else int(v.args[2].const_value())
+        elif v.label != 'item':
+            return None
+        if not (isinstance(node, Opaque) and node.label == 'item' and
+                SPV.version_of(node.args[0]) is not None):
+            return None
+        return [Opaque('item', (node, Sym.const(k))) for k in range(3)][lo:hi]
+
     def call(self, interp, target, args, kwargs, st, node):
         if isinstance(target, FuncRef) and target.qual == 'plot_utils.points_in_tolerance':
             self.n_pred += 1
